@@ -147,6 +147,8 @@ pub fn gen_jitter_spec(rng: &mut Prng, prop: &str, allowed: &[CF], c16_bias: boo
     }
     spec.clock = Some(clock);
     spec.aux = encode_marks(&marks);
+    // the process's logging configuration: Trace level enabled in one run out of six
+    spec.logger = rng.chance(1, 6);
     spec
 }
 
